@@ -8,6 +8,7 @@ package props
 
 import (
 	"fmt"
+	"os"
 	"strings"
 
 	"verif/harness/internal/ev"
@@ -85,6 +86,15 @@ func opsClassify(p opsPoint, s, g opsOutcome) []opsFinding {
 func runOps(prop, tier, replay string) {
 	run := ev.Start(prop, tier, "model_checking")
 	if replay != "" {
+		var sp srPoint
+		if loadReplay(replay, &sp) == nil && sp.Res != "" && sp.Pt.Kind != "" {
+			srCheck(run, []srPoint{sp}, prop)
+			run.Set("states", 1)
+			run.Set("transitions", 1)
+			run.Set("traces_validated_against_impl", 1)
+			run.Sample(sp.stmt())
+			run.Finish()
+		}
 		var lp litPoint
 		if loadReplay(replay, &lp) == nil && lp.Pt.Kind != "" {
 			litCheck(run, []litPoint{lp}, prop)
@@ -138,6 +148,10 @@ func runOps(prop, tier, replay string) {
 		run.Sample(p.text())
 		run.Finish()
 	}
+	if os.Getenv("VERIF_ONLY") == "stmtrules" { // development aid: only the statement-head engine
+		srRun(run, prop)
+		run.Finish()
+	}
 	n := 0
 	states, transitions, points := opsRun(run, tier, func(p opsPoint, s, g opsOutcome) {
 		run.Eval(p.Family + ":" + p.text())
@@ -174,6 +188,10 @@ func runOps(prop, tier, replay string) {
 	if prop != "C04" { // composite literals, index and slice expressions, indirection (Lits.tla)
 		st5, tr5, n5 := litRun(run, tier, prop)
 		states, transitions, points = states+st5, transitions+tr5, points+n5
+	}
+	if prop == "C01" || prop == "C02" { // typing rules of statement heads (StmtRules.tla)
+		st6, tr6, n6 := srRun(run, prop)
+		states, transitions, points = states+st6, transitions+tr6, points+n6
 	}
 	if prop == "C02" { // statement structure: valid bodies of Flow.tla reproduced as the same program
 		st3, tr3, n3 := flowFaithfulRun(run, tier)
